@@ -22,11 +22,14 @@ import (
 	"github.com/pingcap/tidb/pkg/store/mockstore/unistore"
 	"github.com/pingcap/tidb/pkg/util/logutil"
 	tikverr "github.com/tikv/client-go/v2/error"
+	"github.com/tikv/client-go/v2/kv"
 	"github.com/tikv/client-go/v2/oracle"
 	"github.com/tikv/client-go/v2/tikv"
 	"github.com/tikv/client-go/v2/tikvrpc"
+	"github.com/tikv/client-go/v2/txnkv/transaction"
 	"github.com/tikv/client-go/v2/util/async"
 	"github.com/tikv/client-go/v2/util/codec"
+	pd "github.com/tikv/pd/client"
 	"github.com/tikv/pd/client/constants"
 )
 
@@ -39,6 +42,13 @@ type caseT struct {
 	SettleMs int                 `json:"settle_ms"`
 	// [[i, key]]: split at key right before the i-th (1-based) Flush RPC of the case reaches the store
 	RPCSplits [][]json.RawMessage `json:"rpc_splits"`
+	// [[i, "split", key]]: split right before the i-th ResolveLock RPC (layout changes while the resolve runs)
+	ResolveChanges [][]json.RawMessage `json:"resolve_changes"`
+	// Flush RPCs number >= FailFlushFrom (1-based, 0 = never) are answered with an Abort key error
+	FailFlushFrom int `json:"fail_flush_from"`
+	// caller's context of Commit: "after" = cancelled right after Commit returns, "rpc" = while the CancelAtRPC-th ResolveLock is in flight
+	Cancel      string `json:"cancel"`
+	CancelAtRPC int    `json:"cancel_at_rpc"`
 }
 
 type flushRec struct {
@@ -57,6 +67,13 @@ type clientWrapper struct {
 	nFlush   int
 	rpcSplit map[int][]byte
 	bounds   map[string]bool
+	pd       pd.Client
+	served   [][2]*string
+	nResolve int
+	resolveSplit  map[int][][]byte
+	failFlushFrom int
+	cancelAt      int
+	cancelFn      context.CancelFunc
 }
 
 // splitAt splits the region containing key at key (no-op if key is already a region start); c.mu held
@@ -86,7 +103,45 @@ func (c *clientWrapper) SendRequest(ctx context.Context, addr string, req *tikvr
 		if k, ok := c.rpcSplit[c.nFlush]; ok {
 			c.splitAt(k)
 		}
+		lost := c.failFlushFrom > 0 && c.nFlush >= c.failFlushFrom
 		c.mu.Unlock()
+		if lost {
+			return &tikvrpc.Response{Resp: &kvrpcpb.FlushResponse{Errors: []*kvrpcpb.KeyError{{Abort: "injected: store lost"}}}}, nil
+		}
+	}
+	if req.Type == tikvrpc.CmdResolveLock && req.ResolveLock().StartVersion != 0 && len(req.ResolveLock().TxnInfos) == 0 {
+		// layout changes and ResolveLock serving are serialised so that the recorded range is the range of the region
+		// at the moment it answered
+		c.mu.Lock()
+		defer c.mu.Unlock()
+		c.nResolve++
+		for _, k := range c.resolveSplit[c.nResolve] {
+			c.splitAt(k)
+		}
+		if c.cancelFn != nil && c.cancelAt > 0 && c.nResolve == c.cancelAt {
+			c.cancelFn()
+		}
+		var st string
+		var en *string
+		r := c.cluster.GetRegion(req.Context.GetRegionId())
+		if r != nil {
+			if len(r.StartKey) > 0 {
+				if _, raw, err := codec.DecodeBytes(r.StartKey, nil); err == nil {
+					st = hx(raw)
+				}
+			}
+			if len(r.EndKey) > 0 {
+				if _, raw, err := codec.DecodeBytes(r.EndKey, nil); err == nil {
+					e := hx(raw)
+					en = &e
+				}
+			}
+		}
+		resp, err := c.RPCClient.SendRequest(ctx, addr, req, timeout)
+		if err == nil && r != nil && resp.Resp != nil && resp.Resp.(*kvrpcpb.ResolveLockResponse).RegionError == nil {
+			c.served = append(c.served, [2]*string{&st, en})
+		}
+		return resp, err
 	}
 	return c.RPCClient.SendRequest(ctx, addr, req, timeout)
 }
@@ -133,7 +188,8 @@ func newStore(splits [][]byte) (*tikv.KVStore, *clientWrapper, error) {
 		cluster.Split(regionID, newRegion, k, []uint64{newPeer}, newPeer)
 		regionID = newRegion
 	}
-	w := &clientWrapper{RPCClient: client, cluster: cluster, rpcSplit: map[int][]byte{}, bounds: map[string]bool{}}
+	w := &clientWrapper{RPCClient: client, cluster: cluster, rpcSplit: map[int][]byte{}, bounds: map[string]bool{}, pd: pdClient,
+		resolveSplit: map[int][][]byte{}}
 	for _, k := range splits {
 		w.bounds[string(k)] = true
 	}
@@ -242,6 +298,16 @@ func runCase(c *caseT) (out obj) {
 		}
 		wrap.rpcSplit[i] = unhex(rawStr(e[1]))
 	}
+	for _, e := range c.ResolveChanges {
+		var i int
+		if err := json.Unmarshal(e[0], &i); err != nil {
+			panic(fmt.Sprintf("resolve_changes index: %v", err))
+		}
+		if rawStr(e[1]) == "split" {
+			wrap.resolveSplit[i] = append(wrap.resolveSplit[i], unhex(rawStr(e[2])))
+		}
+	}
+	wrap.failFlushFrom = c.FailFlushFrom
 	defer closeLater(store)
 	_, n, err := scanLocks(store)
 	if err != nil {
@@ -276,6 +342,7 @@ func runCase(c *caseT) (out obj) {
 	}
 	startTS := txn.StartTS()
 	out["start_ts"] = startTS
+	committer := transaction.TxnProbe{KVTxn: txn}.GetCommitter()
 
 	results := make([]obj, 0, len(c.Ops))
 	for _, op := range c.Ops {
@@ -290,6 +357,10 @@ func runCase(c *caseT) (out obj) {
 			k := unhex(rawStr(op[1]))
 			mention(k)
 			r["err"] = errv(txn.Delete(k))
+		case "insert":
+			k := unhex(rawStr(op[1]))
+			mention(k)
+			r["err"] = errv(txn.GetMemBuffer().SetWithFlags(k, unhex(rawStr(op[2])), kv.SetPresumeKeyNotExists))
 		case "get":
 			k := unhex(rawStr(op[1]))
 			mention(k)
@@ -325,6 +396,23 @@ func runCase(c *caseT) (out obj) {
 				err = txn.GetMemBuffer().FlushWait()
 			}
 			r["flushed"], r["err"] = flushed, errv(err)
+			if name == "flush" {
+				r["ttl_running"] = committer.IsTTLRunning()
+				prims := map[string]bool{}
+				if locks, _, lerr := scanLocks(store); lerr == nil {
+					for _, l := range locks {
+						if l.GetLockVersion() == startTS {
+							prims[hx(l.GetPrimaryLock())] = true
+						}
+					}
+				}
+				pl := []string{}
+				for k := range prims {
+					pl = append(pl, k)
+				}
+				sort.Strings(pl)
+				r["lock_primaries"] = pl
+			}
 		case "split":
 			wrap.mu.Lock()
 			wrap.splitAt(unhex(rawStr(op[1])))
@@ -340,9 +428,36 @@ func runCase(c *caseT) (out obj) {
 	tEnd := time.Now()
 	switch c.End {
 	case "commit":
-		out["end_err"] = errv(txn.Commit(ctx))
+		cctx, cancel := context.WithCancel(ctx)
+		defer cancel()
+		if c.Cancel == "rpc" {
+			wrap.mu.Lock()
+			wrap.cancelAt, wrap.cancelFn = c.CancelAtRPC, cancel
+			wrap.mu.Unlock()
+		}
+		out["end_err"] = errv(txn.Commit(cctx))
+		if c.Cancel == "after" {
+			cancel()
+		}
 	case "rollback":
 		out["end_err"] = errv(txn.Rollback())
+	case "crash":
+		// the client is gone: no commit, no rollback, no keep-alive; a second client resolves what it finds (GC style)
+		txn.GetMemBuffer().FlushWait()
+		committer.CloseTTLManager()
+		out["end_err"] = nil
+		store2, err2 := tikv.NewTestTiKVStore(&clientWrapper{RPCClient: wrap.RPCClient, cluster: wrap.cluster, rpcSplit: map[int][]byte{},
+			bounds: map[string]bool{}, resolveSplit: map[int][][]byte{}}, wrap.pd, nil, nil, 0)
+		if err2 != nil {
+			panic(fmt.Sprintf("second store: %v", err2))
+		}
+		sp, err2 := store2.CurrentTimestamp(oracle.GlobalTxnScope)
+		if err2 != nil {
+			panic(fmt.Sprintf("second store ts: %v", err2))
+		}
+		if err2 = (tikv.StoreProbe{KVStore: store2}).GCResolveLockPhase(ctx, sp, 2); err2 != nil {
+			out["gc_err"] = err2.Error()
+		}
 	case "none": // negative control: leave the txn open, its flushed locks must show up in locks_left
 		out["end_err"] = nil
 	default:
@@ -375,6 +490,23 @@ func runCase(c *caseT) (out obj) {
 		}
 		time.Sleep(20 * time.Millisecond)
 	}
+	// the background resolve may still be visiting (lock free) regions: wait until the record of served regions is stable,
+	// and for a first entry if the transaction flushed anything and was committed / rolled back
+	ps, _ := committer.VerifPipelinedBounds()
+	for n, stable, t0 := -1, 0, time.Now(); stable < 4; {
+		time.Sleep(5 * time.Millisecond)
+		wrap.mu.Lock()
+		m := len(wrap.served)
+		wrap.mu.Unlock()
+		if m == 0 && len(ps) > 0 && (c.End == "commit" || c.End == "rollback") && time.Since(t0) < settle {
+			continue
+		}
+		if m == n {
+			stable++
+		} else {
+			n, stable = m, 0
+		}
+	}
 	sort.Strings(left)
 	out["locks_left"] = left
 	out["other_locks"] = otherLocks
@@ -403,6 +535,8 @@ func runCase(c *caseT) (out obj) {
 		}
 	}
 	out["final"] = final
+	out["primary"] = hx(committer.GetPrimaryKey())
+	out["ttl_running_end"] = committer.IsTTLRunning()
 	wrap.mu.Lock()
 	out["flushes"] = append([]flushRec{}, wrap.flushes...)
 	regs := []string{}
@@ -411,6 +545,7 @@ func runCase(c *caseT) (out obj) {
 	}
 	sort.Strings(regs)
 	out["region_splits"] = regs
+	out["served"] = append([][2]*string{}, wrap.served...)
 	wrap.mu.Unlock()
 	if len(finalErrs) > 0 {
 		out["final_errs"] = finalErrs
